@@ -54,7 +54,16 @@ def main(argv=None) -> int:
         return 2
     try:
         ctx = Ctx(prop, args.tier, level=getattr(mod, 'LEVEL', 'other'), replay=args.replay)
-        mod.check(ctx)
+        try:
+            mod.check(ctx)
+        except AnalysisError as err:
+            # a rule could not be evaluated. When earlier rules have already reported violations the run ends as a
+            # report of those (the construct that stopped the later rule is usually the one they name); on a tree
+            # without violations it stays an analysis error (exit 2), like a missed floor
+            if not any(o['status'] == 'violation' for o in ctx.obligations):
+                raise
+            print(f'NOTE property={prop} rule={err.rule} could not be evaluated after the violations below: {err.why}')
+            return ctx.finish()
         if args.tier == 'thorough':
             if hasattr(mod, 'thorough'):
                 mod.thorough(ctx)
